@@ -245,3 +245,76 @@ func MutateHost(t *rapid.T, host string) string {
 	}
 	return host
 }
+
+// Competition draws a family of patterns that compete for the same requests at different priorities: a static base
+// path, variants of it with one or two segments replaced by a parameter, a prefixed parameter or a catch-all, each
+// with or without the final slash, and "splitter" siblings that continue a pattern's last segment (or hang a child
+// under it) so that the final '/' of a competitor sits in a radix node of its own. It returns the patterns (the caller
+// registers what the router accepts) and request paths: the base and the variants instantiated with the base's own
+// segments, with and without the trailing slash.
+func Competition(t *rapid.T) (pats, paths []string) {
+	k := IntR(t, 1, 4, "csegs")
+	segs := make([]string, k)
+	for i := range segs {
+		segs[i] = Pick(t, []string{"a", "ab", "b", "foo", "bar", "x"}, "cseg")
+	}
+	join := func(s []string, slash bool) string {
+		p := "/" + strings.Join(s, "/")
+		if slash {
+			p += "/"
+		}
+		return p
+	}
+	baseSlash := Chance(t, 1, 2, "cslash")
+	seen := map[string]bool{}
+	add := func(p string) {
+		if !seen[p] {
+			seen[p] = true
+			pats = append(pats, p)
+		}
+	}
+	splitter := func(p string) {
+		if !Chance(t, 1, 2, "csplit") {
+			return
+		}
+		add(strings.TrimSuffix(p, "/") + Pick(t, []string{"x", "baz", "/x", "/{q}", "b/"}, "csuffix"))
+	}
+	if Chance(t, 3, 4, "cbase") {
+		add(join(segs, baseSlash))
+		splitter(join(segs, baseSlash))
+	}
+	nv := IntR(t, 1, 4, "cvariants")
+	for v := 0; v < nv; v++ {
+		vs := append([]string(nil), segs...)
+		catch := false
+		for r := 0; r < IntR(t, 1, 2, "creplace"); r++ {
+			i := IntR(t, 0, k-1, "cpos")
+			switch kind := IntR(t, 0, 5, "ckind"); {
+			case kind <= 2:
+				vs[i] = fmt.Sprintf("{p%d}", i)
+			case kind == 3:
+				vs[i] = fmt.Sprintf("%s{q%d}", segs[i][:1], i)
+			case !catch && kind == 4:
+				vs[i] = fmt.Sprintf("*{c%d}", i)
+				catch = true
+			case !catch:
+				vs[i] = fmt.Sprintf("%s*{d%d}", segs[i][:1], i)
+				catch = true
+			}
+		}
+		slash := baseSlash
+		if Chance(t, 1, 4, "cvslash") {
+			slash = !slash
+		}
+		add(join(vs, slash))
+		splitter(join(vs, slash))
+	}
+	paths = append(paths, join(segs, !baseSlash), join(segs, baseSlash))
+	if k > 1 {
+		paths = append(paths, join(segs[:k-1], !baseSlash))
+		alt := append([]string(nil), segs...)
+		alt[IntR(t, 0, k-1, "caltpos")] = Pick(t, Values, "caltval")
+		paths = append(paths, join(alt, !baseSlash), join(alt, baseSlash))
+	}
+	return pats, paths
+}
